@@ -331,6 +331,85 @@ func init() {
 		"unicode.ToLower", "unicode.ToUpper", "unicode/utf8.ValidString", "unicode/utf8.RuneLen", "regexp.QuoteMeta", "runtime.GOOS"} {
 		H[n] = noop
 	}
+	// external functions treated as deterministic (uninterpreted) functions of their arguments
+	for name := range pureExternal {
+		name := name
+		H[name] = func(e *Engine, fc *fnCtx, st *State, c *ssa.CallCommon, a []Val, r types.Type) (Val, bool) {
+			return e.pureExternalTerm(name, a, r), true
+		}
+		pureSpecMethods[name] = func(e *Engine, env *SpecEnv, a []Val) Val {
+			return e.pureExternalTerm(name, a, pureExternalResult(env, a, name))
+		}
+	}
+	// slices.Clone: a fresh backing array with the same content (whole array value copied, offset kept)
+	H["slices.Clone"] = func(e *Engine, fc *fnCtx, st *State, c *ssa.CallCommon, a []Val, r types.Type) (Val, bool) {
+		sl, ok := c.Args[0].Type().Underlying().(*types.Slice)
+		if !ok {
+			return Val{}, false
+		}
+		hn, hs := e.sliceHeapName(sl.Elem())
+		H0 := e.heapIn(st, hn, hs)
+		ref := e.newRef(st, "clone")
+		e.setHeapIn(st, hn, hs, store(H0, ref, sel(H0, "(s_ref "+a[0].T+")")))
+		e.logStore(hn, ref)
+		nref := ite("(= (s_ref "+a[0].T+") 0)", "0", ref)
+		return Val{T: e.sc.define("clone", "Slice", "(mk_slice "+nref+" (s_off "+a[0].T+") (s_len "+a[0].T+") (s_len "+a[0].T+"))"), S: "Slice", GoT: r}, true
+	}
+	// slices.SortFunc with a specified comparator: the result is a sorted permutation of the input
+	H["slices.SortFunc"] = func(e *Engine, fc *fnCtx, st *State, c *ssa.CallCommon, a []Val, r types.Type) (Val, bool) {
+		sl, ok := c.Args[0].Type().Underlying().(*types.Slice)
+		cmpSpec := e.comparatorSpec(fc, c.Args[1], a[1])
+		if !ok || cmpSpec == nil {
+			return Val{}, false
+		}
+		hn, hs := e.sliceHeapName(sl.Elem())
+		es := e.sortOf(sl.Elem())
+		H0 := e.heapIn(st, hn, hs)
+		x := a[0].T
+		ref, off, ln := "(s_ref "+x+")", "(s_off "+x+")", "(s_len "+x+")"
+		old := e.sc.define("sort_old", "(Array Int "+es+")", sel(H0, ref))
+		narr := e.sc.declareConst("sort_new", "(Array Int "+es+")")
+		perm := e.sc.fresh("perm")
+		e.sc.emit("(declare-fun " + perm + " (Int) Int)")
+		at := func(arr, i string) Val { return Val{T: sel(arr, "(ix "+off+" "+i+")"), S: es, GoT: sl.Elem()} }
+		le := cmpSpec([]Val{at(narr, "i"), at(narr, "j")})
+		e.assume(st, and(
+			"(forall ((k Int)) (! (=> (or (< k "+off+") (>= k (+ "+off+" "+ln+"))) (= (select "+narr+" k) (select "+old+" k))) :pattern ((select "+narr+" k))))",
+			"(forall ((i Int) (j Int)) (! (=> (and (<= 0 i) (< i j) (< j "+ln+")) (<= "+le.T+" 0)) :pattern ((select "+narr+" (ix "+off+" i)) (select "+narr+" (ix "+off+" j)))))",
+			"(forall ((i Int)) (! (=> (and (<= 0 i) (< i "+ln+")) (and (<= 0 ("+perm+" i)) (< ("+perm+" i) "+ln+") (= (select "+narr+" (ix "+off+" i)) (select "+old+" (ix "+off+" ("+perm+" i)))))) :pattern ((select "+narr+" (ix "+off+" i)))))",
+			"(forall ((i Int) (j Int)) (! (=> (and (<= 0 i) (< i j) (< j "+ln+")) (not (= ("+perm+" i) ("+perm+" j)))) :pattern (("+perm+" i) ("+perm+" j))))",
+			"(forall ((m Int)) (! (=> (and (<= 0 m) (< m "+ln+")) (exists ((i Int)) (and (<= 0 i) (< i "+ln+") (= ("+perm+" i) m)))) :pattern ((select "+old+" (ix "+off+" m)))))",
+		))
+		e.setHeapIn(st, hn, hs, store(H0, ref, narr))
+		e.logStore(hn, ref)
+		e.w.Trusted["slices.SortFunc returns a sorted permutation (comparator specified by a closure/function contract)"] = true
+		return Val{S: "Tuple", GoT: r}, true
+	}
+	// slices.BinarySearchFunc with a specified comparator
+	H["slices.BinarySearchFunc"] = func(e *Engine, fc *fnCtx, st *State, c *ssa.CallCommon, a []Val, r types.Type) (Val, bool) {
+		sl, ok := c.Args[0].Type().Underlying().(*types.Slice)
+		cmpSpec := e.comparatorSpec(fc, c.Args[2], a[2])
+		if !ok || cmpSpec == nil {
+			return Val{}, false
+		}
+		hn, hs := e.sliceHeapName(sl.Elem())
+		es := e.sortOf(sl.Elem())
+		x := a[0].T
+		ref, off, ln := "(s_ref "+x+")", "(s_off "+x+")", "(s_len "+x+")"
+		arr := e.sc.define("bs_arr", "(Array Int "+es+")", sel(e.heapIn(st, hn, hs), ref))
+		at := func(i string) Val { return Val{T: sel(arr, "(ix "+off+" "+i+")"), S: es, GoT: sl.Elem()} }
+		key := func(i string) string { return cmpSpec([]Val{at(i), a[1]}).T }
+		// precondition: the slice is partitioned by the comparator (once >= 0, never < 0 again)
+		e.addObl(fc.fn, "pre-of", "slices.BinarySearchFunc[sorted-for-key]", c.Pos(), st.Reach,
+			"(forall ((i Int) (j Int)) (! (=> (and (<= 0 i) (< i j) (< j "+ln+")) (not (and (>= "+key("i")+" 0) (< "+key("j")+" 0)))) :pattern ((select "+arr+" (ix "+off+" i)) (select "+arr+" (ix "+off+" j)))))")
+		idx := e.freshVal("bs_idx", tInt)
+		found := e.sc.define("bs_found", "Bool", and("(< "+idx.T+" "+ln+")", "(= "+key(idx.T)+" 0)"))
+		e.assume(st, and("(<= 0 "+idx.T+")", "(<= "+idx.T+" "+ln+")",
+			"(forall ((i Int)) (! (=> (and (<= 0 i) (< i "+idx.T+")) (< "+key("i")+" 0)) :pattern ((select "+arr+" (ix "+off+" i)))))",
+			"(forall ((i Int)) (! (=> (and (<= "+idx.T+" i) (< i "+ln+")) (>= "+key("i")+" 0)) :pattern ((select "+arr+" (ix "+off+" i)))))"))
+		e.w.Trusted["slices.BinarySearchFunc returns the partition point of a slice partitioned by the comparator"] = true
+		return tuple(idx, Val{T: found, S: "Bool"}), true
+	}
 	// Decoders as trusted stream contracts: NewDecoder(r).Decode(&v) stores decoded_T(r), a deterministic
 	// (uninterpreted) function of the reader, into v. Specifications refer to it as decoded(r, T).
 	newDecoder := func(e *Engine, fc *fnCtx, st *State, c *ssa.CallCommon, a []Val, r types.Type) (Val, bool) {
@@ -764,4 +843,48 @@ func (e *Engine) decodedTerm(src string, t types.Type) Val {
 	srt := e.sortOf(t)
 	e.sc.declareFun(f, []string{"Int"}, srt)
 	return Val{T: "(" + f + " " + src + ")", S: srt, GoT: t}
+}
+
+var pureExternal = map[string]bool{
+	"(deps.dev/util/semver.System).Compare":  true,
+	"(deps.dev/util/resolve.System).Semver":  true,
+	"(*deps.dev/util/semver.System).Compare": true,
+}
+
+func (e *Engine) pureExternalTerm(name string, a []Val, r types.Type) Val {
+	f := "ext_" + sanitize(name)
+	var sorts, ts []string
+	for _, v := range a {
+		sorts = append(sorts, v.S)
+		ts = append(ts, v.T)
+	}
+	rs := e.sortOf(r)
+	e.sc.declareFun(f, sorts, rs)
+	e.w.Trusted["external function is a deterministic function of its arguments: "+name] = true
+	return Val{T: app(f, ts...), S: rs, GoT: r}
+}
+
+func pureExternalResult(env *SpecEnv, a []Val, name string) types.Type {
+	i := strings.LastIndex(name, ").")
+	if i < 0 || len(a) == 0 || a[0].GoT == nil {
+		return tInt
+	}
+	obj, _, _ := types.LookupFieldOrMethod(a[0].GoT, true, nil, name[i+2:])
+	if f, ok := obj.(*types.Func); ok {
+		sig := f.Type().(*types.Signature)
+		if sig.Results().Len() == 1 {
+			return sig.Results().At(0).Type()
+		}
+	}
+	return tInt
+}
+
+// comparatorSpec returns a function building the specification term of a comparator argument, when it has one:
+// a closure with a verified `closure[k]` spec, or a function with `<name>_lt` / `<name>_eq` spec functions.
+func (e *Engine) comparatorSpec(fc *fnCtx, arg ssa.Value, v Val) func(args []Val) Val {
+	if v.Clo != nil && v.Clo.Spec != nil {
+		clo := v.Clo
+		return func(args []Val) Val { return e.applyClosureSpec(clo, args) }
+	}
+	return nil
 }
